@@ -85,9 +85,10 @@ theorem noRef_doAssign {op : BinOp} {ns : List String} {es : List Expr} {T v : E
   NoRefS.doBlock.mpr (NoRefB.none.mpr (NoRefSs.cons.mpr
     ⟨NoRefS.localAssign.mpr ⟨noWat_of hw, hes⟩, NoRefSs.cons.mpr ⟨noRef_newAssign hT hE hv, noRefSs_nil⟩⟩))
 
-theorem noWat_none {n : String} (hw : WatOK Cx.none D) : DName.wat n ∉ D := fun h => by
-  have := hw n h
-  simp [Cx.none] at this
+theorem noWat_none {Dok : List DName → Prop} {n : String} (hw : WatOK (cxOn Cx.none Dok) D) :
+    DName.wat n ∉ D := fun h => by
+  have := hw.wat n h
+  simp [Cx.none, cxOn] at this
 
 
 /-! ### the exact steps (no temporary) -/
@@ -176,13 +177,14 @@ theorem rc_index_none (op : BinOp) (p key v : Expr) (t : Tracker) (hp : prefixNe
 theorem generate_isTmp (t : Tracker) : isTmp (t.generateWithPrefix varPrefix).1 :=
   TrackerFresh.generate_prefix t varPrefix
 
-theorem noWat_list {ns : List String} (hw : WatOK Cx.none D) : ∀ n ∈ ns, DName.wat n ∉ D :=
+theorem noWat_list {Dok : List DName → Prop} {ns : List String} (hw : WatOK (cxOn Cx.none Dok) D) : ∀ n ∈ ns, DName.wat n ∉ D :=
   fun _ _ => noWat_none hw
 
 theorem link_field_tmp (op : BinOp) (hop : isCompoundOp op = true) (p p' : Expr) (n : String) (v : Expr) (g : String)
     (hfe : FirstEq p p') (hnp' : ∀ D, NoRefE D p → NoRefE D p') (hg : isTmp g) (hvg : v.refs (.ref g) = false) :
     GkS Cx.none Dok (.cassign op (.field p n) v) (doAssign op (localOf [g] [p']) (.field (.var g) n) v) := by
-  intro D hw hk hn
+  intro D hw hn
+  have hk := hw.ok
   have hh := NoRefS.cassign.mp hn
   have hp := NoRefT.field.mp hh.1
   have hgD : DName.ref g ∉ D := hk g hg
@@ -194,7 +196,8 @@ theorem link_index_ptmp (op : BinOp) (hop : isCompoundOp op = true) (p key v : E
     (hks : isSimple key = true) (hg : isTmp g) (hkg : key.refs (.ref g) = false) (hvg : v.refs (.ref g) = false) :
     GkS Cx.none Dok (.cassign op (.index p key) v)
       (doAssign op (localOf [g] [removeParens p]) (.index (.var g) key) v) := by
-  intro D hw hk hn
+  intro D hw hn
+  have hk := hw.ok
   have hh := NoRefS.cassign.mp hn
   have hp := NoRefT.index.mp hh.1
   have hgD : DName.ref g ∉ D := hk g hg
@@ -207,7 +210,8 @@ theorem link_index_both (op : BinOp) (hop : isCompoundOp op = true) (p key v : E
     (hg : isTmp g) (hi : isTmp i) (hvg : v.refs (.ref g) = false) (hvi : v.refs (.ref i) = false) :
     GkS Cx.none Dok (.cassign op (.index p key) v)
       (doAssign op (localOf [g, i] [removeParens p, removeParens key]) (.index (.var g) (.var i)) v) := by
-  intro D hw hk hn
+  intro D hw hn
+  have hk := hw.ok
   have hh := NoRefS.cassign.mp hn
   have hp := NoRefT.index.mp hh.1
   have hgD : DName.ref g ∉ D := hk g hg
@@ -270,7 +274,7 @@ theorem link_replace (op : BinOp) (target v : Expr) (t : Tracker) (hok : compoun
         · exact absurd (hshape h) hp
       rw [rc_index_none op p key v t hp' hk']
       refine GkS.ofEq (fun N call ρ k env σ =>
-        exact_index call ρ k env σ op hop p key v (prefix_simple hp') (index_simple hk')) fun D _ _ hn => ?_
+        exact_index call ρ k env σ op hop p key v (prefix_simple hp') (index_simple hk')) fun D _ hn => ?_
       have hh := NoRefS.cassign.mp hn
       have hpk := NoRefT.index.mp hh.1
       exact noRef_newAssign (NoRefT.index.mpr ⟨noRef_simplifyPrefix hpk.1, noRef_removeParens hpk.2⟩)
@@ -280,7 +284,7 @@ theorem link_replace (op : BinOp) (target v : Expr) (t : Tracker) (hok : compoun
     | var x =>
       rw [rc_field_var]
       refine GkS.ofEq (fun N call ρ k env σ =>
-        exact_field call ρ k env σ op hop (.var x) (.var x) n v rfl rfl rfl) fun D _ _ hn => ?_
+        exact_field call ρ k env σ op hop (.var x) (.var x) n v rfl rfl rfl) fun D _ hn => ?_
       have hh := NoRefS.cassign.mp hn
       exact noRef_newAssign hh.1 (NoRefE.field.mpr (NoRefT.field.mp hh.1)) hh.2
     | paren inner =>
@@ -288,7 +292,7 @@ theorem link_replace (op : BinOp) (target v : Expr) (t : Tracker) (hok : compoun
       · rw [rc_field_paren_simple op inner n v t hs]
         have hl := simpleInner_leaf hs
         refine GkS.ofEq (fun N call ρ k env σ =>
-          exact_field call ρ k env σ op hop (.paren inner) _ n v hl ?_ ?_) fun D _ _ hn => ?_
+          exact_field call ρ k env σ op hop (.paren inner) _ n v hl ?_ ?_) fun D _ hn => ?_
         · cases inner <;> first | exact hl | rfl
         · cases inner <;> rfl
         · have hh := NoRefS.cassign.mp hn
@@ -303,7 +307,7 @@ theorem link_replace (op : BinOp) (target v : Expr) (t : Tracker) (hok : compoun
     | _ =>
       exact link_field_tmp op hop _ _ n v _ (FirstEq.refl _) (fun D h => h) g1 (htmp _ g1).2
   | var x =>
-    refine GkS.ofEq (fun N call ρ k env σ => exact_var call ρ k env σ op hop x v) fun D _ _ hn => ?_
+    refine GkS.ofEq (fun N call ρ k env σ => exact_var call ρ k env σ op hop x v) fun D _ hn => ?_
     have hh := NoRefS.cassign.mp hn
     exact noRef_newAssign hh.1 (NoRefE.var.mpr (NoRefT.var.mp hh.1).1) hh.2
   | _ => simp [Expr.isLv] at hlv
